@@ -426,6 +426,8 @@ func init() {
 						for _, ttype := range schema.TypeMap() {
 							results = append(results, ttype)
 						}
+						// map order must not leak into the response
+						sort.Slice(results, func(i, j int) bool { return results[i].Name() < results[j].Name() })
 						return results, nil
 					}
 					return []Type{}, nil
@@ -618,6 +620,8 @@ func init() {
 				for _, field := range ttype.Fields() {
 					fields = append(fields, field)
 				}
+				// map order must not leak into the response
+				sort.Slice(fields, func(i, j int) bool { return fields[i].PrivateName < fields[j].PrivateName })
 				return fields, nil
 			}
 			return nil, nil
